@@ -148,6 +148,11 @@ def _build_case(draw):
             max_size=3,
         )
     )
+    for a in spec['algs']:
+        # a state vector that stays empty until the algorithm has run: it
+        # has no persisted version and must not hide the ones listed after it
+        if draw(st.integers(0, 3)) == 0:
+            a['scratch'] = draw(st.integers(0, 3))
     return {'spec': spec, 'marks': marks, 'targets': targets,
             'future': draw(st.booleans())}
 
@@ -204,6 +209,8 @@ def _check(out, case, ref, sched):
     if any(bumped) and not all(bumped):
         out.nontrivial = True
         out.label('some-bumped-some-not')
+    if any(a.get('scratch') is not None for a in case['spec']['algs']):
+        out.label('empty-state-vector-listed')
     if not case['targets']:
         out.label('no-targets')
     if any(
@@ -214,6 +221,50 @@ def _check(out, case, ref, sched):
         out.label('sv-version-bumped')
     if any(not v for m in case['marks'] for s in m['svs'] for v in s['vals']):
         out.label('value-version-bumped')
+
+
+def _drain(out, case, ref, sched):
+    '''what was scheduled is also handed out: release batch after batch the
+    way farm.dispatch does, report every unit done (nothing new), and compare
+    the units that came out with the ones that had to be scheduled'''
+    import dawgie.pl.logger.chronicle as chron
+
+    want, _bumped = _expected(case, ref)
+    want = {k: v for k, v in want.items() if v}
+    real_append = chron.append
+    chron.append = lambda *_a, **_k: None  # the journal is C18
+    released = {}
+    try:
+        for _round in range(3 * len(ref.tag) + 3):
+            jobs = sched.next_job_batch()
+            if not jobs:
+                break
+            for j in jobs:
+                ts = sorted(j.get('do'))
+                j.get('do').clear()
+                for t in ts:
+                    if t in released.get(j.tag, ()):
+                        out.fail('build/unit-released-twice', f'{j.tag}[{t}]')
+                    released.setdefault(j.tag, set()).add(t)
+            for j in jobs:
+                for t in sorted(released[j.tag] & set(j.get('doing'))):
+                    sched.complete(j, 1, t, {}, sched.State.success)
+    finally:
+        chron.append = real_append
+        sched.suc.clear()
+        sched.err.clear()
+    if released != want:
+        out.fail(
+            'build/scheduled-but-never-handed-out',
+            'not released='
+            f'{ {k: sorted(v - released.get(k, set())) for k, v in want.items() if v - released.get(k, set())} } '
+            'released unexpectedly='
+            f'{ {k: sorted(v - want.get(k, set())) for k, v in released.items() if v - want.get(k, set())} }')
+    elif len(want) >= 2:
+        out.label('two-algorithms-handed-out')
+    left = [j.tag for j in sched.que]
+    if left and not out.failures:
+        out.fail('build/queue-not-empty-after-drain', f'{left}')
 
 
 def exec_build(case):
@@ -262,6 +313,8 @@ def exec_build(case):
             try:
                 sched.build(f, latest, (tasks, palg, psv, pv))
                 _check(out, case, ref, sched)
+                if not out.failures:
+                    _drain(out, case, ref, sched)
             finally:
                 sched.que = []
                 sched.per = []
